@@ -666,13 +666,19 @@ func wfExtents(T []uint64) bool {
 //@   nonnil br wg dstErr
 //@   safe
 
+// Tape shape written by the rebuild loop (C17, C11): an owed NOP run of length n is written as n, n-1, .., 1 (every
+// skip lands exactly on the entry after the run), and a container opener at s with end pointer e gets its closer at
+// e-1 pointing back to s.
 //@ func (*Serializer).Deserialize
 //@   props C19
 //@   invariant 0 0 <= off && 0 <= nSkips && off <= len(dst.Tape) && nSkips <= len(dst.Tape) && off+nSkips <= len(dst.Tape)
 //@   invariant 1 0 <= i && i <= nSkips && nSkips <= len(dst.Tape) && 0 <= off && off <= len(dst.Tape) && off+(nSkips-i) < len(dst.Tape)
+//@   invariant 1 [C17,C11] run: i <= off && forall(off-i, off, func(k int) bool { return dst.Tape[k] == uint64(TagNop)<<56|uint64(off+(nSkips-i)-k) })
 //@   decreases 1 nSkips - i
 //@   invariant 2 0 <= i && i <= nSkips && nSkips <= len(dst.Tape) && 0 <= off && off <= len(dst.Tape) && off+(nSkips-i) <= len(dst.Tape)
+//@   invariant 2 [C17,C11] run: i <= off && forall(off-i, off, func(k int) bool { return dst.Tape[k] == uint64(TagNop)<<56|uint64(off+(nSkips-i)-k) })
 //@   decreases 2 nSkips - i
+//@   assertat `dst.Tape[val-1] = uint64(tagOpenToClose[tag])<<56 | uint64(off)` [C17,C11] closer: implies(val >= uint64(off)+2, payOf(dst.Tape[val-1]) < val && payOf(dst.Tape[payOf(dst.Tape[val-1])]) == val && tagOf(dst.Tape[payOf(dst.Tape[val-1])]) == tag && tagOf(dst.Tape[val-1]) == tagOpenToClose[tag])
 //@   safe
 
 // ---------------------------------------------------------------------------
